@@ -165,7 +165,9 @@ def r4_double_definition(R) -> None:
     rs = g.raises('ParserError')
     if R.require(q, len(rs), 'raise ParserError for two different definitions', fi=g.fi, pred=lambda x: isinstance(x, ast.Raise)):
         atoms = {text(a): truth for (a, truth, _t) in g.guard_atoms(rs[0].id)}
-        ok = atoms.get('old is not None') and atoms.get('new is not None') and (atoms.get('old != new') or atoms.get('new != old'))
+        ps = [p for p in g.fi.params()][:2]
+        a0, a1 = (ps + ['old', 'new'])[:2] if len(ps) >= 2 else ('old', 'new')
+        ok = g.holds(rs[0].id, f'{a0} is not None') and g.holds(rs[0].id, f'{a1} is not None') and g.holds(rs[0].id, f'{a0} != {a1}')
         R.check(bool(ok), q, 'double-def-guard', 'two different non-None definitions raise ParserError',
                 f'ParserError guard is {atoms}', where=g.where(rs[0]))
     f = R.repo.func(f'{P}.Symbol.combine')
@@ -350,20 +352,34 @@ def r7_default_range(R) -> None:
     for q in ('fsic.core.interfaces.SolverMixin.iter_periods', 'fsic.fortran.FortranEngine.solve'):
         f = Fn(R, q)
         for nm, want in (('start', 'self.lags'), ('end', '-1 - self.leads')):
-            ds = [d for d in f.assigns_to(nm) if any(truth and text(a) == f'{nm} is None' for (a, truth, _t) in f.guard_atoms(d.id))]
+            ds = [d for d in f.assigns_to(nm) if f.holds(d.id, f'{nm} is None')]
+            # conditional-expression form: start = <default> if start is None else start
+            for d in f.assigns_to(nm):
+                v_ = d.ast.value
+                if isinstance(v_, ast.IfExp) and text(v_.test) in (f'{nm} is None',) and text(v_.orelse) == nm:
+                    d_ = d
+                    ds = ds + [type('N', (), {'ast': ast.Assign(targets=d.ast.targets, value=v_.body), 'id': d.id, 'lineno': d.lineno})()]
             if not R.require(q, len(ds), f'default `{nm}` under `{nm} is None`', fi=f.fi, pred=lambda x: isinstance(x, ast.Subscript) and text(x.value) == 'self.span'):
                 continue
             v = ds[0].ast.value
             ok = isinstance(v, ast.Subscript) and text(v.value) in ('self.span', "self.__dict__['span']") and affine(v.slice) == affine(expr(want))
             R.check(ok, q, f'default-{nm}:{text(v)}', f'default {nm} = span[{want}]',
                     f'default {nm} is `{text(v)}`, expected `self.span[{want}]` (first period with enough lags / last with enough leads)', where=f.where(ds[0]))
-        # inclusive integer range
-        rng = [x for x in ast.walk(f.fi.node) if is_call(x, 'range') and len(x.args) == 2 and '_locate_period_in_span' in text(x)]
-        if R.require(q, len(rng), 'range(loc(start), loc(end) + 1)', fi=f.fi, pred=lambda x: is_call(x, 'range')):
-            r = rng[0]
-            ok = text(r.args[0]) == 'self._locate_period_in_span(start)' and affine(r.args[1]) == affine(expr('self._locate_period_in_span(end) + 1'))
+        # inclusive integer range (locals holding the two located positions are read through)
+        rng_nodes = [n for n in f.cfg.nodes if n.ast is not None and n.kind == 'stmt' and any(is_call(x, 'range') and len(x.args) >= 2 for x in ast.walk(n.ast))]
+        cands = []
+        for n in rng_nodes:
+            for x in ast.walk(n.ast):
+                if is_call(x, 'range') and len(x.args) >= 2:
+                    ex = f.expand(n.id, x, depth=3)
+                    if '_locate_period_in_span' in text(ex):
+                        cands.append((n, ex))
+        if R.require(q, len(cands), 'range(loc(start), loc(end) + 1)', fi=f.fi, pred=lambda x: is_call(x, 'range')):
+            n, r = cands[0]
+            ok = text(r.args[0]) == 'self._locate_period_in_span(start)' and affine(r.args[1]) == affine(expr('self._locate_period_in_span(end) + 1')) \
+                and (len(r.args) == 2 or is_const(r.args[2], 1))
             R.check(ok, q, 'range:' + text(r), 'positions run from loc(start) to loc(end) inclusive', f'`{text(r)}` is not range(loc(start), loc(end) + 1)',
-                    where=f'{f.fi.module.relpath}:{r.lineno}')
+                    where=f.where(n))
 
 
 def run(R) -> None:
